@@ -16,6 +16,15 @@
 (*                stand-in for Java's null): inserting it is a no-op and   *)
 (*                it is never a member                                     *)
 (*          ek    which key is the empty string (0 = none in use)          *)
+(*          nil   the values of the type are objects and may be the nil     *)
+(*                object (IntKeyMap: interface{}).  The nil object is the   *)
+(*                value code NilV; a call that answers a stored nil answers *)
+(*                the empty tuple, exactly what it answers for "absent"     *)
+(*                (a key stored with nil IS stored: member, counted,        *)
+(*                enumerated -- only a lookup cannot tell it from absent)   *)
+(*                                                                         *)
+(* cfg.none is a configuration of the object for IntIntMap (its public      *)
+(* NONE field, default 0): every history says which one it runs with.       *)
 (*                                                                         *)
 (* Keys are abstract positive integers (the harness logs the rank of a key *)
 (* in the history's sorted key pool), values small integers.  A result is  *)
@@ -41,8 +50,13 @@ Range(s) == {s[i] : i \in 1..Len(s)}
 Stored     == DOMAIN m
 Size       == Cardinality(Stored)
 Present(k) == k \in Stored
+\* the value code of the nil object (types with cfg.nil only; such a type never
+\* stores the number -1, the harness boxes non-negative codes only)
+NilV == -1
+\* a stored value as a call answers it
+Wrap(v) == IF cfg.nil /\ v = NilV THEN <<>> ELSE <<v>>
 \* what a lookup-like call answers for key k (also: the "previous value")
-Lookup(k)  == IF Present(k) THEN <<m[k]>> ELSE cfg.none
+Lookup(k)  == IF Present(k) THEN Wrap(m[k]) ELSE cfg.none
 \* the type refuses this key
 Refused(k) == cfg.rej /\ k = cfg.ek
 HasValue(v) == \E k \in Stored : m[k] = v
@@ -85,8 +99,9 @@ ReadOnly == UNCHANGED vars
 \* before or after the addition; either is accepted, nothing else is.
 AddRetOK(k, v, ret) == IF Present(k) THEN ret \in {<<m[k]>>, <<m[k] + v>>}
                        ELSE ret \in {<<v>>, cfg.none}
+\* (for an absent key add-if-exist added nothing: "absent" or the sum 0)
 AddIfExistRetOK(k, v, ret) == IF Present(k) THEN ret \in {<<m[k]>>, <<m[k] + v>>}
-                              ELSE ret = cfg.none
+                              ELSE ret \in {cfg.none, <<0>>}
 
 \* ---- enumerations: bags, order free -----------------------------------------
 \* seq lists every stored key exactly once
